@@ -140,6 +140,43 @@ def gen_dtype_max_cube(rng):
     return case
 
 
+def gen_related_cube(rng):
+    """RELATIONS between arguments / calls (cubelib.gen_related + relations of the calls): the very same iindex object at
+    two or three positions of dims (1-, 2-, 3-axis; A A, A B A, A A A), equal-content twins as distinct objects (other
+    construction path / dict order), zero-entry dimensions; and, on the same objects: the same CUBE object asked twice
+    (count() twice, interactions() then count()), a warm-up cube over the same dimension objects in another order
+    whose result must be the transposed table."""
+    N, specs, pattern = cubelib.gen_related(rng, multi_axis=True)
+    how = rng.choice(["inferred", "inferred", "exact", "larger"])
+    shape = None
+    if how != "inferred":
+        shape = [max(numpy.asarray(s["arr"]).flatten().tolist() + [s["common"]]) + 1 + (rng.choice([0, 1]) if how == "larger" else 0) for s in specs]
+    perm = list(range(len(specs)))
+    rng.shuffle(perm)
+    rel = {"pattern": pattern,
+           "calls": rng.choice(["count", "count-twice", "interactions-then-count", "count-twice"]),
+           "warmup_perm": perm if (perm != sorted(perm) and rng.random() < 0.6) else None}
+    case = add_cube_forms(rng, {"dims": specs, "shape": shape, "format": list(rng.choice(FORMATS)), "N": N})
+    case["relations"] = rel
+    return case
+
+
+def transposed_warmup(case, dims, W, R):
+    """The table of the warm-up cube ccube([dims[p] for p in perm]) rearranged to the axis order of ccube(dims):
+    scaffold axes of every dimension in dimension order, then one interacting axis per dimension."""
+    perm = case["relations"]["warmup_perm"]
+    nax = [len(d.shape) - 1 for d in dims]
+    pos, k = {}, 0
+    for p in perm:                                  # scaffold blocks of the warm-up, in its dimension order
+        pos[("s", p)] = list(range(k, k + nax[p]))
+        k += nax[p]
+    for p in perm:
+        pos[("i", p)] = [k]
+        k += 1
+    axes = [a for i in range(len(dims)) for a in pos[("s", i)]] + [a for i in range(len(dims)) for a in pos[("i", i)]]
+    return numpy.transpose(W, axes)
+
+
 def gen_lopsided_cube(rng):
     """cubelib.gen_lopsided as a count cube: one-axis dimensions, N 30..120, extents 2-5, exact / padded / inferred shape"""
     N, cols = cubelib.gen_lopsided(rng)
@@ -175,7 +212,8 @@ def cell_value(v):
 def run_cube(case):
     """Build and count.  -> dict(raised, shape, vals, valid, missing, dims)"""
     from catii import ccube
-    dims = [cubelib.build_dim(s) for s in case["dims"]]
+    dims = cubelib.build_dims(case["dims"])
+    rel = case.get("relations") or {}
     kind, null = case["format"]
     rma = NAN if kind == "nan" else ((null, False) if kind == "pair" else null)
     cf = case.get("forms") or {}
@@ -193,7 +231,28 @@ def run_cube(case):
         out["shape"] = tuple(int(e) for e in cube.interacting_shape)
         out["scaffold"] = tuple(int(e) for e in cube.scaffold_shape)
         kw = {} if (dims and not cf.get("N")) else {"N": cubelib.apply_scalar(case["N"], cf.get("N"))}
+        warm = None
+        if rel.get("warmup_perm"):
+            # a cube over the SAME dimension objects in another order, computed first
+            p = rel["warmup_perm"]
+            wshape = None if shape is None else tuple(int(case["shape"][i]) for i in p)
+            warm = ccube([dims[i] for i in p], interacting_shape=wshape).count(return_missing_as=rma, **kw)
+        if rel.get("calls") == "interactions-then-count":
+            cube.interactions()
+        first = cube.count(return_missing_as=rma, **kw) if rel.get("calls") == "count-twice" else None
         res = cube.count(return_missing_as=rma, **kw)
+
+        def same(x, y):
+            xs, ys = (x if isinstance(x, tuple) else (x,)), (y if isinstance(y, tuple) else (y,))
+            return all(numpy.asarray(a).shape == numpy.asarray(b).shape and numpy.array_equal(numpy.asarray(a), numpy.asarray(b), equal_nan=(numpy.asarray(a).dtype.kind == "f"))
+                       for a, b in zip(xs, ys))
+        if first is not None and not same(first, res):
+            out["relation_error"] = "the same cube object returns different tables when count() is called twice"
+        if warm is not None:
+            ws, rs = (warm if isinstance(warm, tuple) else (warm,)), (res if isinstance(res, tuple) else (res,))
+            wt = tuple(transposed_warmup(case, dims, numpy.asarray(w), None) for w in ws)
+            if not same(wt, rs):
+                out["relation_error"] = "ccube over the same dimension objects in the order %r is not the transposed table" % (rel["warmup_perm"],)
     except IndexError as e:
         out["raised"] = "IndexError"
         if "shape" not in out:
@@ -218,6 +277,8 @@ def judge(case, out):
             a.shape = (0,) + tuple(s.get("hshape", ()))
     if out["raised"]:
         return {"raised": out["raised"], "message": out.get("message", "")}
+    if out.get("relation_error"):
+        return {"relation": out["relation_error"]}
     shape, scaffold = out["shape"], out["scaffold"]
     if case["shape"] is None:
         want = tuple(int(max(a.flatten().tolist() + [s["common"]])) + 1 for a, s in zip(arrs, case["dims"]))
@@ -318,7 +379,8 @@ def coq_cases(ctx, case, out):
 
 
 def strip(case):
-    return {"dims": case["dims"], "shape": case["shape"], "format": case["format"], "N": case["N"], "forms": case.get("forms")}
+    return {"dims": case["dims"], "shape": case["shape"], "format": case["format"], "N": case["N"], "forms": case.get("forms"),
+            "relations": case.get("relations")}
 
 
 def exhaustive_cases():
@@ -350,7 +412,10 @@ def run(ctx):
                 "extents and N as Python ints or NumPy integer scalars, dict-key coordinates as NumPy scalars; commons and coordinates also AT "
                 "the maximum of their 8-/16-bit dtype with inferred shape (dtype-max stream, finding F24); explicit extents as NumPy scalars of "
                 "any dtype holding them, also at the dtype maximum, interacting_shape as tuple / list / ndarray (finding F27); 32-/64-bit "
-                "maxima would need 2^31-cell regions and are not generated); a case = one sub-cube block, "
+                "maxima would need 2^31-cell regions and are not generated); relations: the very same iindex object (1-3 axes) at two or three "
+                "positions of dims (A A, A B A, A A A), equal-content twins as distinct objects (other construction path / dict order), "
+                "zero-entry dimensions, the same cube object asked twice (count twice, interactions then count), a warm-up cube over the same "
+                "objects in another order whose table must be the transpose; a case = one sub-cube block, "
                 "distinct per literal, non-trivial when N > 0 and it has at least one dimension")
     ctx.trusted = list(core.STD_TRUSTED) + [
         "SetOps: set_intersect_merge_np(base, rowids) = inter_spec base rowids on increasing inputs (property C08)",
@@ -371,6 +436,7 @@ def run(ctx):
     form_dist = collections.Counter()
 
     n_dtmax = 0
+    rel_dist = collections.Counter()
 
     def add(case):
         nonlocal n_cubes, n_raised
@@ -405,6 +471,12 @@ def run(ctx):
         if i % (2 * every) == 1:
             add(gen_dtype_max_cube(ctx.rng))
             n_dtmax += 1
+        if i % every == 2:
+            rc = gen_related_cube(ctx.rng)
+            add(rc)
+            rel_dist["pattern=" + rc["relations"]["pattern"]] += 1
+            rel_dist["calls=" + rc["relations"]["calls"]] += 1
+            rel_dist["warm-up cube in another order" if rc["relations"]["warmup_perm"] else "no warm-up cube"] += 1
         r = ctx.rng.random()
         case = gen_cube(ctx.rng, big=(r < 0.12), uncovered=(0.12 <= r < 0.2))
         if not in_domain(case):
@@ -422,6 +494,7 @@ def run(ctx):
     ctx.coverage.update({"random_cubes": n_rand, "lopsided_cubes": len(range(0, n_rand, every)), "dtype_max_cubes": n_dtmax, "exhaustive_cubes": n_exh, "cubes": n_cubes, "blocks_compared_in_coq": len(cases),
                          "cubes_outside_domain": n_unc, "index_errors": n_raised})
     ctx.coverage["input_forms"] = dict(sorted(form_dist.items()))
+    ctx.coverage["relations"] = dict(sorted(rel_dist.items()))
     if n_exh:
             ctx.coverage["exhaustive_subspace"] = ("all 2-dimension x 3-row x 3-category x common in {0,1,2,absent} cubes (%d) "
                                             "(a complete sub-space; the random stream is not exhaustive)" % n_exh)
@@ -437,7 +510,12 @@ def run(ctx):
     if found:
         found.sort(key=lambda f: (len(f["dims"]), f["N"], len(json.dumps(f))))
         raised = [f for f in found if "raised" in f["difference"]]
-        wrong = [f for f in found if "raised" not in f["difference"]]
+        related = [f for f in found if "relation" in f["difference"]]
+        wrong = [f for f in found if "raised" not in f["difference"] and "relation" not in f["difference"]]
+        if related:
+            ctx.report("count:depends-on-call-history", "ccube.count() over the same dimension objects differs between two calls / two orders of the dimensions",
+                       {"failing_inputs": related[:10], "count": len(related),
+                        "how": "cubelib.build_dims (spec['same_as'] = shared object), then the calls recorded in case['relations']"})
         if wrong:
             ctx.report("count:wrong-cell", "a cell of ccube.count() is not the number of rows of that cell / not missing exactly when zero",
                        {"failing_inputs": wrong[:10], "count": len(wrong),
